@@ -4,7 +4,7 @@
     restricted to None, bool, int, str, list and dict with str keys (floats and
     other objects are outside the model), and a model of [json.loads] on the
     documents that encoder produces (same separators, no other whitespace). *)
-From LQ Require Import Base.Str.
+From LQ Require Import Base.Str Kernels.NumLit.
 Local Open Scope N_scope.
 
 Inductive jv :=
@@ -96,3 +96,181 @@ Fixpoint json_encode (v : jv) : str :=
 
 (** misc.py:132-142 with [indent] absent: the filter's output. *)
 Definition json_filter (v : jv) : str := json_encode v.
+
+(** ** A model of [json.loads] on the documents the encoder above produces
+    (separators comma-space and colon-space, no other whitespace, no floats).
+    [py_scanstring]: a backslash-u escape of a high surrogate joins a following
+    backslash-u low surrogate, any other surrogate escape stands for itself;
+    raw control characters below U+0020 are rejected (strict mode). *)
+
+Definition jhexval (d : N) : option N :=
+  if (48 <=? d) && (d <=? 57) then Some (d - 48)
+  else if (65 <=? d) && (d <=? 70) then Some (d - 55)
+  else if (97 <=? d) && (d <=? 102) then Some (d - 87)
+  else None.
+
+Definition jhex4 (a b c d : N) : option N :=
+  match jhexval a, jhexval b, jhexval c, jhexval d with
+  | Some x, Some y, Some z, Some w => Some (4096 * x + 256 * y + 16 * z + w)
+  | _, _, _, _ => None
+  end.
+
+Definition jsimple (e : N) : option N :=
+  if e =? 34 then Some 34 else if e =? 92 then Some 92 else if e =? 47 then Some 47
+  else if e =? 98 then Some 8 else if e =? 102 then Some 12 else if e =? 110 then Some 10
+  else if e =? 114 then Some 13 else if e =? 116 then Some 9 else None.
+
+Definition jhigh (n : N) : bool := (0xD800 <=? n) && (n <=? 0xDBFF).
+Definition jlow (n : N) : bool := (0xDC00 <=? n) && (n <=? 0xDFFF).
+
+Definition jcons (c : N) (r : option (str * str)) : option (str * str) :=
+  match r with Some (s, rest) => Some (c :: s, rest) | None => None end.
+
+(** The text after an opening quote: the decoded string and what follows the
+    closing quote. *)
+Fixpoint jstring (src : str) : option (str * str) :=
+  match src with
+  | [] => None
+  | c :: r =>
+      if c =? 34 then Some ([], r)
+      else if c =? 92 then
+        match r with
+        | [] => None
+        | e :: r1 =>
+            if e =? 117 then
+              match r1 with
+              | a :: b :: c1 :: d :: r4 =>
+                  match jhex4 a b c1 d with
+                  | None => None
+                  | Some hi =>
+                      match r4 with
+                      | x :: y :: e1 :: f :: g :: h :: r10 =>
+                          if jhigh hi && (x =? 92) && (y =? 117) then
+                            match jhex4 e1 f g h with
+                            | Some lo =>
+                                if jlow lo
+                                then jcons (0x10000 + (hi - 0xD800) * 1024 + (lo - 0xDC00)) (jstring r10)
+                                else jcons hi (jstring r4)
+                            | None => None
+                            end
+                          else jcons hi (jstring r4)
+                      | _ => jcons hi (jstring r4)
+                      end
+                  end
+              | _ => None
+              end
+            else match jsimple e with Some v => jcons v (jstring r1) | None => None end
+        end
+      else if c <? 32 then None
+      else jcons c (jstring r)
+  end.
+
+(** A number: [-?digits]; a fraction or exponent would be a float (outside). *)
+Definition jnumber (src : str) : option (jv * str) :=
+  let '(m, r0) := opt_minus src in
+  let '(ds, r1) := span_digits r0 in
+  match ds with
+  | [] => None
+  | _ =>
+      let floaty := match r1 with c :: _ => (c =? DOT) || is_e c | [] => false end in
+      if floaty then None
+      else Some (JInt (match m with [] => digits_value ds | _ => - digits_value ds end)%Z, r1)
+  end.
+
+Definition starts (p src : str) : option str :=
+  (fix go (p src : str) : option str :=
+     match p with
+     | [] => Some src
+     | x :: p' => match src with y :: s' => if x =? y then go p' s' else None | [] => None end
+     end) p src.
+
+Fixpoint jvalue (fuel : nat) (src : str) : option (jv * str) :=
+  match fuel with
+  | O => None
+  | S f =>
+      match src with
+      | [] => None
+      | c :: r =>
+          if c =? 34 then
+            match jstring r with Some (s, rest) => Some (JStr s, rest) | None => None end
+          else if c =? 91 then
+            match r with
+            | d :: r' => if d =? 93 then Some (JList [], r') else
+                match jelems f r with Some (l, rest) => Some (JList l, rest) | None => None end
+            | [] => None
+            end
+          else if c =? 123 then
+            match r with
+            | d :: r' => if d =? 125 then Some (JDict [], r') else
+                match jmembers f r with Some (l, rest) => Some (JDict l, rest) | None => None end
+            | [] => None
+            end
+          else match starts s_null src with Some rest => Some (JNull, rest) | None =>
+               match starts s_true src with Some rest => Some (JBool true, rest) | None =>
+               match starts s_false src with Some rest => Some (JBool false, rest) | None =>
+               jnumber src end end end
+      end
+  end
+with jelems (fuel : nat) (src : str) : option (list jv * str) :=
+  match fuel with
+  | O => None
+  | S f =>
+      match jvalue f src with
+      | None => None
+      | Some (v, rest) =>
+          match rest with
+          | c :: r =>
+              if c =? 93 then Some ([v], r)
+              else match starts item_sep rest with
+                   | Some r2 => match jelems f r2 with
+                                | Some (l, rest') => Some (v :: l, rest')
+                                | None => None
+                                end
+                   | None => None
+                   end
+          | [] => None
+          end
+      end
+  end
+with jmembers (fuel : nat) (src : str) : option (list (str * jv) * str) :=
+  match fuel with
+  | O => None
+  | S f =>
+      match src with
+      | c :: r0 =>
+          if c =? 34 then
+            match jstring r0 with
+            | None => None
+            | Some (k, r1) =>
+                match starts key_sep r1 with
+                | None => None
+                | Some r2 =>
+                    match jvalue f r2 with
+                    | None => None
+                    | Some (v, rest) =>
+                        match rest with
+                        | c2 :: r =>
+                            if c2 =? 125 then Some ([(k, v)], r)
+                            else match starts item_sep rest with
+                                 | Some r3 => match jmembers f r3 with
+                                              | Some (l, rest') => Some ((k, v) :: l, rest')
+                                              | None => None
+                                              end
+                                 | None => None
+                                 end
+                        | [] => None
+                        end
+                    end
+                end
+            end
+          else None
+      | [] => None
+      end
+  end.
+
+(** [json.loads(text)]: the whole text must be one value. *)
+Definition json_decode (text : str) : option jv :=
+  match jvalue (S (2 * List.length text)) text with
+  | Some (v, []) => Some v
+  | _ => None
+  end.
